@@ -10,6 +10,7 @@ import BufrModel.Drv.PathOp
 import BufrModel.Drv.CoderOp
 import BufrModel.Drv.ScriptOp
 import BufrModel.Drv.SectionsOp
+import BufrModel.Drv.LinksOp
 open Lean Bufr.Drv
 
 /-- stateless operations: one line per op (keep sorted by property to ease merging) -/
@@ -24,6 +25,7 @@ def statelessOps : List (String × (Json → J Json)) :=
   ("msg-encode", opMsgEncode) ::
   ("msg-decode", opMsgDecode) ::
   ("mdquery", opMdQuery) ::
+  ("links-spec", opLinksSpec) ::
   []
 
 
@@ -33,6 +35,7 @@ def statefulOps : List (String × (DrvState → Json → J (DrvState × Json))) 
   ("dec-data", opDecData) ::
   ("enc-data", opEncData) ::
   ("gen-data", opGenData) ::
+  ("wf-bitmap", opWfBitmap) ::
   []
 
 def dispatch (st : DrvState) (j : Json) : J (DrvState × Json) := do
